@@ -19,3 +19,86 @@ claim("C09",
             "i64/u64 extremes) x multipliers/divisors, and on millions of seeded random operands, lists and byte "
             "patterns. Held-on-everything-explored, not a proof."),
       note="Trusted: Rust i128 arithmetic; proptest 1.4.0 generators; harness built with overflow checks and debug assertions on.")
+
+HOOKS["source_commits"] = []
+
+claim("C01",
+      technique="model-based stateful proptest: generated wallet histories vs an independent ledger model + differential against a fresh linear wallet",
+      text=("Generated histories (blocks with receipts/spends in Sapling/Orchard/Ironwood to 1-3 accounts and foreign keys, scans of arbitrary "
+            "ranges in any order with repeats, tip updates, truncations with and without a chain reorganisation, chains > 100 blocks so the "
+            "nullifier-tracking floor and pruning engage) are applied to a real SQLite wallet and to a model ledger written from the property text "
+            "and the documented expiry rule. After EVERY step total+uneconomic per account and pool and all mined-note rows (txid, index, value, "
+            "nullifier, position, height, scope, spent-by) must equal the model; at the end everything is scanned and compared with a fresh wallet "
+            "that scans the final chain linearly. Exploration: held on every generated history, no proof."),
+      note="Trusted: the repository's TestFvk note-encryption helpers used to fabricate compact outputs; incrementalmerkletree frontiers; proptest 1.4.0; the model's reading of tx_unexpired_condition (40-block rule).")
+
+claim("C06",
+      technique="model-based stateful proptest: wallet ShardTrees vs true frontiers maintained by the chain model, after every step of generated histories",
+      text=("Same history generator as C01 (plus busy chains that exceed the 100-checkpoint budget, NU6.3 activating inside the chain, retention "
+            "intervals 1..12/144). After every step each pool's checkpoints must lie on the current branch with the chain's true position and root, "
+            "every witness produced for an unspent mined wallet note must hash to the true root at that checkpoint, the three pools must be "
+            "checkpointed at the same heights (above the pruning horizon) and every scanned retention boundary must have a checkpoint in every pool. "
+            "Three genuine defects are listed as known findings and excluded by exact trigger so the search continues behind them."),
+      note="Trusted: incrementalmerkletree::Frontier for the model's true roots; produced-but-unavailable roots/witnesses are counted, not asserted.")
+
+claim("C07",
+      technique="proptest + fixed boundary vectors against an independent u128 ZIP 317 reference and a padding/shape model",
+      text=("fee_required is compared exactly with an independent ZIP 317 formula; every Ok balance of Single/MultiOutputChangeStrategy must conserve "
+            "value exactly, pay at least (and, with a change output, exactly) the ZIP 317 fee of the recorded final shape incl. padding, respect the "
+            "dust policy and split rules and never let the Orchard pool gain value after NU6.3; InsufficientFunds must really be insufficient. "
+            "~1M generated cases per quick run over all pools, policies, heights and grid positions."),
+      note="Trusted: the reference fee formula (pinned by hand-derived vectors); sapling/orchard builder padding behaves as documented.")
+
+claim("C10",
+      technique="proptest differential against an independent ZIP 316/ZIP 173/BIP 350/F4Jumble re-implementation + structured near-valid string mutation",
+      text=("Round trips for every address kind and network, unified containers with unknown items, acceptance iff an independent byte-level ZIP 316 "
+            "predicate holds (26 defect kinds), canonical re-encoding of every accepted string, F4Jumble bijection on boundary lengths, no panic on "
+            "arbitrary and near-valid strings. ~0.9M cases per quick run."),
+      note="Trusted: SHA-256/BLAKE2b primitives and the Base58 alphabet shared with the crate; the reference is pinned by the official ZIP 316 vectors.")
+
+claim("C12",
+      technique="proptest round trip + grammar-based generation with single-rule violations against an independent ZIP 321 reference parser",
+      text=("Requests with 1..8 payments at arbitrary indices, full-Unicode labels/messages, exhaustive structured amounts and every memo length "
+            "round-trip exactly; URIs rendered from the ABNF with at most one of 19 violations must be accepted iff the reference accepts; mutated "
+            "and arbitrary strings never panic and accepted ones satisfy the ZIP 321 rules and re-render to the same request. ~1.2M cases per quick run."),
+      note="Trusted: ZcashAddress string codec shared with the code under test (covered by C10); ambiguous ABNF corners only assert the safety direction.")
+
+claim("C15",
+      technique="exhaustive small-domain enumeration + proptest sequences against a pointwise reference map; stateful proptest of the SQLite scan queue and client sync loop",
+      text=("SpanningTree: every leaf x single insertion over 8 heights, every ordered pair over 5 heights and every triple of non-empty ranges over 3 "
+            "heights (all 7 priorities, force flag, empty ranges) plus 1M random sequences must flatten to the pointwise dominance reference. "
+            "Wallet: generated histories (mining, tip updates, partial scans from either end, rewinds, far tip jumps) keep the scan_queue a sorted "
+            "gap-free merged partition, mark exactly the scanned range, and the documented client loop terminates within a model-computed bound "
+            "with everything scanned."),
+      note="Trusted: TestState fake chain; update_chain_tip's choice of priority is not modelled. The reorg tree conflict (C06 root cause) is a known finding.")
+
+claim("C16",
+      technique="exhaustive boundary-lattice enumeration (3.9M points) + proptest against an independent greedy 1-2-5 reference under a family of adversarial cost oracles",
+      text=("Every plan must consist of canonical non-increasing denominations within the cap, be a prefix of the canonical split (reference greedy and "
+            "implementation under a zero-cost oracle), conserve value exactly, be drained when the cap is not reached and costs are as assumed, never "
+            "touch the RNG and never panic for refusing, over-charging, inconsistent or huge oracle answers, incl. the real plan_preparation oracle."),
+      note="Trusted: the reference greedy written from the doc comment; harness built with overflow checks so wrapping shows as a panic.")
+
+claim("C17",
+      technique="exhaustive lattice enumeration (classify evidence lattice, grid arithmetic) + proptest with scripted biased RNG streams + brute-force minimum piercing set",
+      text=("Delays within cap, non-decreasing saturating broadcast heights, canonical expiries over the full u32 range, permutations, anchor draws vs "
+            "a u64 reference candidate set (None iff empty) incl. redraw and earliest_broadcast_height, wake-up schedules validated and compared with "
+            "a brute-force minimum for <= 9 transfers, classify monotone / no refutation without negative observation / complete on the whole "
+            "evidence lattice under 3 constant sets. ~9.8M evaluations per quick run."),
+      note="Trusted: references written from the rustdoc; RNG streams end in a ChaCha tail so rejection loops terminate (the property's own qualification).")
+
+claim("C19",
+      technique="differential proptest against an independent Equihash definition checker and Wagner solver; exhaustive bit-flip and parameter-grid enumeration",
+      text=("All solutions an independent solver finds for 14 small parameter sets must be accepted; every single-bit flip of solution/input/nonce, "
+            "index-level mutations, table-based subtree replacements, near misses and repeated-index pseudo-solutions must AGREE with the definition "
+            "checker; every length 0..2L+8 and the (n,k) grid never panic and invalid parameters give Err. The crate's vectors and a mainnet header "
+            "(all 11 896 bit flips) pin the reference."),
+      note="Trusted: blake2b_simd; the spec section 7.6.1 reading of validity (incl. distinct indices).")
+
+claim("C20",
+      technique="model-based proptest of append/truncate sequences against an independent ZIP 221 MMR re-implementation; exhaustive walk of peak configurations; byte-mutation differential of the node codec",
+      text=("After every op the root, returned links, appended node data and serialisations must equal a from-scratch rebuild from the leaf list for "
+            "V1/V2/V3; fully loaded trees and minimal partial views must agree and a view lacking a needed node must error cleanly; node records incl. "
+            "counters beyond MAX_COMPACT_SIZE round-trip byte-for-byte and non-canonical CompactSize forms are rejected. Every leaf count 1..160 is "
+            "walked exhaustively per version."),
+      note="Trusted: BLAKE2b primitive; real-chain precondition that summed work/counters do not overflow.")
